@@ -91,6 +91,20 @@ def _finish(c, nl: dict, route: dict):
                 c = copy.deepcopy(c)
             elif how == 'pickle':
                 c = pickle.loads(pickle.dumps(c))
+            elif how in ('composed', 'composed_named'):
+                # the circuit as a composition result: attached to an empty circuit (side by side, labels kept)
+                core = cirbo_core()
+                made = core.Circuit().add_circuit(c, **({'name': '', } if how == 'composed' else {'name': 'whole', 'add_prefix': False}))
+                a, b = refsem_of(made), refsem_of(c)
+                if a == b:
+                    c = made
         except Exception:  # noqa
             pass
     return c
+
+
+def refsem_of(c):
+    from vlib import refsem
+
+    r = refsem.from_circuit(c)
+    return r['inputs'], sorted((g[0], g[1], tuple(g[2])) for g in r['gates']), r['outputs']
